@@ -201,6 +201,7 @@ func Run(bh Behaviour, seed int64) ([]Line, error) {
 		return nil, err
 	}
 	w.Rec.NidEmptyOK = bh.Cfg.NidE
+	w.Rec.NativeNid = bh.Cfg.SO // the store-once back end looks records up by node id itself
 	for _, k := range bh.Cfg.CertKeys {
 		w.EnsureCertKey(k)
 	}
@@ -292,7 +293,7 @@ func (r *run) step(op map[string]any, ln *Line) {
 			return
 		}
 		ni.NodeId = s(op, "nid")
-		if err := w.Inner.Store(w.Ctx, ni); err != nil {
+		if err := rawStore(w, ni); err != nil {
 			panic(err)
 		}
 		ln.Res = "ok"
@@ -333,7 +334,7 @@ func (r *run) step(op map[string]any, ln *Line) {
 			panic(err)
 		}
 		ni.CertificatePublicKeyPkix = pkix
-		if err := w.Inner.Store(w.Ctx, ni); err != nil {
+		if err := rawStore(w, ni); err != nil {
 			panic(err)
 		}
 		ln.Res = "ok"
@@ -345,7 +346,7 @@ func (r *run) step(op map[string]any, ln *Line) {
 			return
 		}
 		ni.ServerEncryptionPrivateKeyBytes = nil
-		if err := w.Inner.Store(w.Ctx, ni); err != nil {
+		if err := rawStore(w, ni); err != nil {
 			panic(err)
 		}
 		ln.Res = "ok"
@@ -434,7 +435,7 @@ func (r *run) step(op map[string]any, ln *Line) {
 			return
 		}
 		ni.PreviousCertificatePublicKeyPkix = from.Pkix
-		if err := w.Inner.Store(w.Ctx, ni); err != nil {
+		if err := rawStore(w, ni); err != nil {
 			panic(err)
 		}
 		ln.Res = "ok"
@@ -510,7 +511,24 @@ func (r *run) step(op map[string]any, ln *Line) {
 		if err != nil {
 			panic(err)
 		}
-		req, err := nc.CreateFetchNodeCredentialsRequest(w.Ctx)
+		if s(op, "flow") == world.None {
+			op["flow"] = "plain"
+		}
+		op["again"] = b(op, "again")
+		// flow "wrap": the node builds its request with a registration wrapper (KMS flow); "again": it has built a
+		// request from the same credentials before (a polling node) - the request judged is the LATER one
+		var copts []nodeenrollment.Option
+		if s(op, "flow") == "wrap" {
+			copts = append(copts, nodeenrollment.WithRegistrationWrapper(w.Wrappers["W1"]))
+		}
+		if b(op, "again") {
+			if _, err := nc.CreateFetchNodeCredentialsRequest(w.Ctx, copts...); err != nil {
+				panic(err)
+			}
+			time.Sleep(1200 * time.Millisecond)
+			t0 = time.Now()
+		}
+		req, err := nc.CreateFetchNodeCredentialsRequest(w.Ctx, copts...)
 		t1 := time.Now()
 		if err != nil {
 			panic(err)
@@ -523,9 +541,13 @@ func (r *run) step(op map[string]any, ln *Line) {
 		ln.Obs["nbWithin"] = !nb.Before(t0.Add(-time.Millisecond)) && !nb.After(t1.Add(time.Millisecond))
 		ln.Obs["lifeSec"] = int(na.Sub(nb) / time.Second)
 		ln.Obs["lifeExact"] = na.Sub(nb) == nodeenrollment.DefaultFetchCredentialsLifetime
-		_, err = registration.AuthorizeNode(w.Ctx, w.Store, req, w.Opts()...)
-		setErr(err)
-		ln.Res = okErr(err)
+		if s(op, "flow") == "wrap" {
+			ln.Res = "ok" // only the request's own validity window is judged in the wrapper flow
+		} else {
+			_, err = registration.AuthorizeNode(w.Ctx, w.Store, req, w.Opts()...)
+			setErr(err)
+			ln.Res = okErr(err)
+		}
 
 	case "GenCerts":
 		r.genCerts(op, ln)
@@ -536,6 +558,17 @@ func (r *run) step(op map[string]any, ln *Line) {
 	default:
 		panic("unknown op " + s(op, "op"))
 	}
+}
+
+// rawStore writes an edited node record straight to the back end; a store-once back end refuses to overwrite, so
+// the harness removes the old record first there
+func rawStore(w *world.World, ni *types.NodeInformation) error {
+	err := w.Inner.Store(w.Ctx, ni)
+	if err != nil {
+		_ = w.Inner.Remove(w.Ctx, &types.NodeInformation{Id: ni.Id})
+		err = w.Inner.Store(w.Ctx, ni)
+	}
+	return err
 }
 
 func okErr(err error) string {
@@ -590,6 +623,10 @@ func (r *run) submit(op map[string]any, ln *Line) {
 	signer := fs.K
 	switch mut {
 	case "signedByOther":
+		signer = "kx"
+	case "signedByNamedPrev":
+		// the bundle names kx as the node's PREVIOUS certificate key and is signed by kx, not by the key it names as its own
+		info.PreviousCertificatePublicKeyPkix = w.EnsureCertKey("kx").Pkix
 		signer = "kx"
 	case "noCertKey":
 		info.CertificatePublicKeyPkix = nil
